@@ -978,9 +978,26 @@ where
         _pd: std::marker::PhantomData,
     };
     st.hist.push(format!("setup({}: created {}, kept {} entities, shape {})", C::NAME, n, st.live.len(), shape));
+    // sometimes every live entity gets a component up front, in shuffled order: gap-free storages whose
+    // internal (dense) order is a permutation of the index order
+    if st.rng.chance(1, 3) && st.live.len() <= 300 {
+        let mut order = st.live.clone();
+        st.rng.shuffle(&mut order);
+        for e in order {
+            let p = st.p();
+            if let Out::InsOk(None, s) = Drv::<C>(std::marker::PhantomData).access(st.w(), e, Path::Insert, p) {
+                st.model.insert(e, s);
+            }
+        }
+        st.hist.push("prefill(all live entities, shuffled order)".into());
+    }
     if C::TRACKED != 0 {
-        let mut s = st.world.as_ref().unwrap().write_storage::<C>();
-        st.reader = C::register_reader(&mut s);
+        {
+            let mut s = st.world.as_ref().unwrap().write_storage::<C>();
+            st.reader = C::register_reader(&mut s);
+        }
+        // membership at registration time is the baseline the event stream is replayed over
+        st.replayed = st.idx_model().keys().cloned().collect();
     }
     let prop = cfg.prop.as_str();
     // weights: access, join_shared, join_mut, join_mut_lend, restricted, entries, drain, clear, slices, toggle, churn
